@@ -441,6 +441,22 @@ def replayLine (s : DState) (op : String) (mid : Nat) (args : List String) (orc 
              ("symdiff", ks (SetAlg.symmetricDifference a b)), ("disjoint", bit (SetAlg.isDisjoint a b)),
              ("subset", bit (SetAlg.isSubset a b)), ("superset", bit (SetAlg.isSuperset a b)), ("eq", bit (SetAlg.eq a b)),
              ("panic", "-")]
+  | "feq", [kind, k, kid, v, vid] =>
+    nat kind fun kind => nat k fun k => nat kid fun kid => nat v fun v => nat vid fun vid => needMap fun m =>
+      -- (the return value is compared by the plain operations; here the state, the cost and the dropped objects are)
+      let finF := fun (r : Except Fault (Map × Out × Bool)) =>
+        match finF r with
+        | .ok s' fields => Replay.ok s' (fields.filter (fun f => f.1 != "ret" && f.1 != "retd"))
+        | other => other
+      let fired := (field? orc "fired").getD "0" == "1"
+      if fired then finF (Map.eqFused c kind m ⟨k, kid, v, vid⟩ true o)
+      else if kind == 0 then
+        finF (resolveHitsF (fun h => Map.eqFused c 0 m ⟨k, kid, v, vid⟩ false { o with hits := h }) glObs (c.R + 2))
+      else if kind == 1 then
+        finF (resolveEmptF (fun e => Map.eqFused c 1 m ⟨k, kid, v, vid⟩ false { o with empt := e }) glObs)
+      else if kind == 3 then
+        finF (resolveHitsF (fun h => Map.eqFused c 3 m ⟨k, kid, v, vid⟩ false { o with hits := h }) glObs (c.R + 2))
+      else finF (Map.eqFused c kind m ⟨k, kid, v, vid⟩ false o)
   | "fentry", [k, kid, raw, inserting] => nat k fun k => nat kid fun kid => needMap fun m =>
       finF (.ok (Map.entryFused m k kid (raw == "1") (inserting == "1")))
   | "drop", [] => needMap fun m =>
